@@ -16,8 +16,7 @@ import CifModel.Model.Value
     pnew <p> <n> <key>{n}   pget <p> <key>   pset <p> <key> <src ref|~>   prem <p> <key> <dst slot|~>   pnames <p>   pfree <p>
 
   answer: `vl <result> | <result> … # <s0> ; … ; <s7> ; <p0> ; … ; <p3>` — per op the return code and the dump of the
-  objects it touched, at the end the dump of every slot (`_` = empty).  `uaf` = the C, as written, reads an object it
-  has just released (source inside the clone target).
+  objects it touched, at the end the dump of every slot (`_` = empty).
 -/
 namespace Driver.Fam.Val
 open Driver CifModel CifModel.Model.Value
@@ -97,26 +96,17 @@ def updateRef (st : St) (r : Ref) (x : V) : Option St :=
 
 inductive Copy where
   | done (st : St)
-  | uaf                       -- the source was released by cleaning the target
   | bad
 
-/-- copy the object at `src` onto the EXISTING object at `dst`, as cif_value_clone(src, &dst) does: clean `dst`, then read
-    `src` -/
-def copyOnto (rep : Bool) (st : St) (src dst : Ref) : Copy :=
+/-- copy the object at `src` onto the EXISTING object at `dst`, as cif_value_clone(src, &dst) does -/
+def copyOnto (st : St) (src dst : Ref) : Copy :=
   if src.root = dst.root then
     match getRoot st dst.root with
     | none => .bad
     | some root =>
-      if (resolve root src.path).isNone || (resolve root dst.path).isNone then .bad
-      else if rep then
-        match cloneOntoRepaired root src.path dst.path with
-        | some root' => .done (setRoot st dst.root (some root'))
-        | none => .bad
-      else if isPrefix dst.path src.path && src.path != dst.path then .uaf
-      else
-        match cloneOnto root src.path dst.path with
-        | some root' => .done (setRoot st dst.root (some root'))
-        | none => .uaf
+      match cloneOnto root src.path dst.path with
+      | some root' => .done (setRoot st dst.root (some root'))
+      | none => .bad
   else
     match resolveRef st src with
     | none => .bad
@@ -139,7 +129,7 @@ def normOf (k : Str × Option Str) : Str → Option Str := fun _ => k.2
 def memberRef (r : Ref) (s : Step) : Ref := { r with path := r.path ++ [s] }
 
 /-- set on a map held at `r` (a table value or a packet): shared by tset and pset.  `badKey` = code for a rejected key. -/
-def mapSetOp (rep : Bool) (st : St) (r : Ref) (key : Str × Option Str) (src : Option Ref) (badKey : Code) : Option (St × String) :=
+def mapSetOp (st : St) (r : Ref) (key : Str × Option Str) (src : Option Ref) (badKey : Code) : Option (St × String) :=
   match resolveRef st r with
   | some (.tbl es) =>
     match key.2 with
@@ -164,9 +154,8 @@ def mapSetOp (rep : Bool) (st : St) (r : Ref) (key : Str × Option Str) (src : O
           | none => (updateRef st1 target .unk).map (fun st' => (st', "0"))
           | some s =>
             if s = target then some (st1, "0")
-            else match copyOnto rep st1 s target with
+            else match copyOnto st1 s target with
               | .done st' => some (st', "0")
-              | .uaf => some (st1, "uaf")
               | .bad => none
   | some _ => some (st, codeStr ARGUMENT_ERROR)
   | none => none
@@ -197,7 +186,7 @@ def mapRemOp (st : St) (r : Ref) (key : Str × Option Str) (dst : String) : Opti
   | none => none
 
 /-- one operation: new state and the result text (without the trailing root dump) together with the roots to dump -/
-def step (rep : Bool) (st : St) (op : List String) : Option (St × String × List Root) :=
+def step (st : St) (op : List String) : Option (St × String × List Root) :=
   match op with
   | ["new", s, k] => do
       let r ← parseSlot s; let kind ← k.toNat?
@@ -225,9 +214,8 @@ def step (rep : Bool) (st : St) (op : List String) : Option (St × String × Lis
         match dst.root with
         | .val _ => pure (setRoot st dst.root (some (clone sv)), "0", [dst.root])
         | _ => none
-      else match copyOnto rep st src dst with
+      else match copyOnto st src dst with
         | .done st' => pure (st', "0", [dst.root])
-        | .uaf => pure (st, "uaf", [])
         | .bad => none
   | ["init", a, k] => do
       let r ← parseRef a; let kind ← k.toNat?; let v ← resolveRef st r
@@ -270,9 +258,8 @@ def step (rep : Bool) (st : St) (op : List String) : Option (St × String × Lis
         | none => do let st' ← updateRef st r cleaned; pure (st', "0", [r.root])
         | some sr =>
           if sr = target then pure (st, "0", [r.root])
-          else match copyOnto rep st sr target with
+          else match copyOnto st sr target with
             | .done st' => pure (st', "0", [r.root])
-            | .uaf => pure (st, "uaf", [])
             | .bad => none
   | ["lins", a, i, s] => do
       let r ← parseRef a; let idx ← i.toNat?; let src ← parseSrc s; let v ← resolveRef st r
@@ -300,8 +287,8 @@ def step (rep : Bool) (st : St) (op : List String) : Option (St × String × Lis
       pure (st, out, [])
   | ["tset", a, k, s] => do
       let r ← parseRef a; let key ← parseKey k; let src ← parseSrc s
-      let (st', out) ← mapSetOp rep st r key src INVALID_INDEX
-      pure (st', out, if out == "uaf" then [] else [r.root])
+      let (st', out) ← mapSetOp st r key src INVALID_INDEX
+      pure (st', out, [r.root])
   | ["trem", a, k, d] => do
       let r ← parseRef a; let key ← parseKey k
       let (st', out) ← mapRemOp st r key d
@@ -321,7 +308,7 @@ def step (rep : Bool) (st : St) (op : List String) : Option (St × String × Lis
         else
           -- the names travel with their normalised forms: look the normalisation up by position
           let norm : Str → Option Str := fun s => (keys.find? (fun k => k.1 == s)).bind (·.2)
-          match (if rep then packetCreateRepaired norm (keys.map (·.1)) else packetCreate norm (keys.map (·.1))) with
+          match packetCreate norm (keys.map (·.1)) with
           | .ok es => pure (setRoot st r (some (.tbl es)), "0", [r])
           | .error c => pure (st, codeStr c, [r])
       | _ => none
@@ -334,8 +321,8 @@ def step (rep : Bool) (st : St) (op : List String) : Option (St × String × Lis
       let r ← parseSlot p; let key ← parseKey k; let src ← parseSrc s
       match r with
       | .pkt _ => do
-        let (st', out) ← mapSetOp rep st { root := r, path := [] } key src INVALID_ITEMNAME
-        pure (st', out, if out == "uaf" then [] else [r])
+        let (st', out) ← mapSetOp st { root := r, path := [] } key src INVALID_ITEMNAME
+        pure (st', out, [r])
       | _ => none
   | ["prem", p, k, d] => do
       let r ← parseSlot p; let key ← parseKey k
@@ -360,11 +347,11 @@ def splitOps (toks : List String) : List (List String) :=
     | t :: ts => if t == "|" then go [] (cur.reverse :: acc) ts else go (t :: cur) acc ts
   (go [] [] toks).filter (fun o => !o.isEmpty)
 
-def run (rep : Bool) (ops : List (List String)) : Option String := do
+def run (ops : List (List String)) : Option String := do
   let mut st := St.init
   let mut out : List String := []
   for op in ops do
-    match step rep st op with
+    match step st op with
     | none => out := "bad" :: out
     | some (st', res, roots) =>
       st := st'
@@ -374,11 +361,6 @@ def run (rep : Bool) (ops : List (List String)) : Option String := do
 
 def name : String := "val"
 
-/-- `val @repaired …` runs the model of the code with the repairs proposed for F32 / F33 applied
-    (`cloneOntoRepaired`, `packetCreateRepaired`); the generator adds the flag when VERIF_GG_REPAIRED=1 -/
-def handle : Handler := fun args =>
-  match args with
-  | "@repaired" :: rest => run true (splitOps rest)
-  | _ => run false (splitOps args)
+def handle : Handler := fun args => run (splitOps args)
 
 end Driver.Fam.Val
